@@ -357,7 +357,9 @@ impl Prop for C08 {
             }
             quick_obs(&bv, &m, k + 1)?;
             ctx.queries += 4;
-            if (k + 1) % 8 == 0 && k + 1 != c.ops.len() {
+            // (the coverage-guided target runs ~100x slower per case: fewer intermediate sweeps there)
+            let every = if ctx.build == "fuzz" { 48 } else { 8 };
+            if (k + 1) % every == 0 && k + 1 != c.ops.len() {
                 full_obs(&bv, &m, c.plan_seed ^ k as u64, ctx, 12)?;
             }
         }
